@@ -100,6 +100,12 @@ func (n *fnode) wait(ctx context.Context) error {
 	case "hang":
 		time.Sleep(timeout + 500*time.Millisecond) // ignores the context
 		return errors.New("gave up")
+	case "deaf":
+		time.Sleep(n.lat) // ignores the context, then answers as a valid node would
+		n.mu.Lock()
+		n.replied = time.Since(n.start)
+		n.mu.Unlock()
+		return nil
 	}
 	select {
 	case <-time.After(n.lat):
@@ -244,7 +250,10 @@ func (n *fnode) SignedBeaconBlock(ctx context.Context, _ *api.SignedBeaconBlockO
 // slotCache maps a key root to a head slot: slot-1-(20-rank) so that a higher rank is a later head.
 type slotCache struct{ mode string }
 
-func (c slotCache) BlockRootToSlot(_ context.Context, root phase0.Root) (phase0.Slot, error) {
+func (c slotCache) BlockRootToSlot(ctx context.Context, root phase0.Root) (phase0.Slot, error) {
+	if ctx.Err() != nil {
+		return 0, ctx.Err() // the real cache fetches the header on a miss, with this context
+	}
 	rank := int(binary.BigEndian.Uint32(root[4:8])) - 1
 	if rank < 0 {
 		return 0, errors.New("unknown root")
